@@ -429,7 +429,15 @@ def cycseed(repo, res, rule="CYCSEED"):
             # nothing but the visited test may skip a vertex
             gs = [g for g in A.guards_of(c, pm, stop=lp) if g[0]["k"] == "If"]
             pg = [x for x in A.preceding_guards(c, pm) if A.before(lp, x[2])]
-            only_visited = all("visited" in cond_text(repo, fn, g[0]["cond"]) for g in gs) and all(x[0] == "if" and "visited" in cond_text(repo, fn, x[1]) for x in pg)
+            # the visited set is whatever this call passes for the callee's `&mut UstrSet` parameter (names are not assumed)
+            callee = repo.fn("check::traverse_nonterminal_dependencies_dfs")
+            vis = "visited"
+            if callee is not None:
+                for pi, prm in enumerate(callee.params):
+                    if "UstrSet" in (prm.get("ty") or "") and "mut" in (prm.get("ty") or "") and pi < len(c["args"]):
+                        vis = "".join(repo.text(fn.file, c["args"][pi]).split()).replace("&mut", "")
+            vtest = vis + ".contains"
+            only_visited = all(vtest in cond_text(repo, fn, g[0]["cond"]).replace(" ", "") for g in gs) and all(x[0] == "if" and vtest in cond_text(repo, fn, x[1]).replace(" ", "") for x in pg)
             # errors propagate
             tr = pm[id(c)][0]["k"] == "Try"
             if only_visited and tr:
@@ -459,7 +467,8 @@ def cycseed(repo, res, rule="CYCSEED"):
             gs = [g for g in A.guards_of(errs[0], pm2) if g[0]["k"] == "If"]
             onpath = bool(gs) and "path" in cond_text(repo, f2, gs[0][0]["cond"]) and "any" in cond_text(repo, f2, gs[0][0]["cond"])
             pg = A.preceding_guards(recs[0], pm2)
-            skip = [x for x in pg if x[0] == "if" and "visited.contains" in cond_text(repo, f2, x[1]).replace(" ", "")]
+            vname = next((prm["name"] for prm in f2.params if "UstrSet" in (prm.get("ty") or "")), "visited")
+            skip = [x for x in pg if x[0] == "if" and (vname + ".contains") in cond_text(repo, f2, x[1]).replace(" ", "")]
             ok = onpath and bool(skip) and A.before(gs[0][0], skip[0][2]) and pm2[id(recs[0])][0]["k"] == "Try"
     res.check(ok, rule, "CYCSEED:check::traverse_nonterminal_dependencies_dfs:back-edge", "edge to a vertex on the current path -> NonterminalDefinitionsCycle, tested before the visited skip; errors propagate with `?`", f2.loc() if f2 else "")
     return seeded_all
@@ -473,6 +482,9 @@ def run(repo, res, tier):
     graph_walkers(repo, res)
     cycseed(repo, res)
     from . import c11
+    from vlib import rules_skips as SK, tables
+    n = SK.skips_rule(repo, res, tables.load("skips")["row"])
+    res.floor("SKIPS", n, 55)
     c11.dom_get_specializations(repo, res)  # unknown-shell / non-command / duplicate checks precede the target-shell filter
     common.run_traversals(repo, res, only={"check::do_check_subword_spaces", "check::do_get_nonterm_refs", "check::expr_get_head", "check::expr_get_tail"}, rp=False)
     res.floor("GUARD", res.count("GUARD"), 12)
